@@ -24,9 +24,11 @@ class Prop(ConnProp):
                   "any number of connections, every interleaving of loops, user calls, ~TcpServer, loop exit): owner_updown, "
                   "owner_down_once, owner_affinity (callbacks on the assigned loop, map only on the base loop, no assertion), "
                   "round_robin, owner_map (assert(n==1) never fails), owner_destroy_clean, owner_no_leak, server_destruction, for all "
-                  "L, all numbers of connections and all schedules, under two explicit hypotheses with negation witnesses: distinct "
-                  "names (owner_name_collision_witness) and no connectEstablished/connectDestroyed functor stranded when an "
-                  "EventLoop object dies (owner_stranded_witness)")
+                  "L, all numbers of connections and all schedules, under one explicit hypothesis: distinct names (negation witness "
+                  "owner_name_collision_witness; owner_name_buffer_fits ties it to the buffer size, the id increment and the initial "
+                  "id in the source). That no functor that still has to run is stranded when an EventLoop object dies is a theorem "
+                  "(owner_goodSched) for the repeated final drain the code has; negation witnesses for no drain (F10: "
+                  "server_destruction_needs_drain) and a single drain (F29: owner_stranded_witness)")
     level_note = ("Connection engine: single loop, the cross-loop hop of TcpServer::removeConnection is collapsed there (it is the Owner "
                   "engine's subject: hand-off kinds/targets/holds, name buffer, id increment, life token, final drain extracted by "
                   "vlib/gen/owner.py; deterministic differential run of the real TcpServer with gated loop threads, harness/owner_drv.cc, "
